@@ -71,6 +71,10 @@ pub trait World {
     fn reports_panics(&self) -> bool {
         false
     }
+    /// Worker death (abort, stack overflow, SIGSEGV) and hangs are violations of this property.
+    fn reports_crashes(&self) -> bool {
+        self.reports_panics()
+    }
     /// Probe counters that should be non-zero in any healthy run.
     fn expected_probes(&self) -> Vec<&'static str> {
         vec![]
